@@ -176,6 +176,31 @@ func init() {
 		w.Line("/-- doHandle stores the response right after buildResponse, i.e. before any later filter runs -/")
 		w.Line("def cacheStoreAfterBuild : Bool := %s", Bool(iBuild >= 0 && iStore > iBuild))
 
+		// ---- retries: Request.GetPayload hands out a NEW reader over the buffered bytes on every call (the
+		// stream reader only for stream requests, which are never retried); doHandle - the function the retry
+		// wrapper calls once per attempt - runs prepareRequest itself
+		gp, err := r.Func("pkg/protocols/httpprot/request.go", "Request", "GetPayload")
+		if err != nil {
+			return err
+		}
+		fresh, sharedOnlyForStream := false, true
+		if n := len(gp.Body.List); n > 0 {
+			fresh = r.Src(gp.Body.List[n-1]) == "return bytes.NewReader(r.payload)"
+		}
+		ast.Inspect(gp.Body, func(x ast.Node) bool {
+			if rs, ok := x.(*ast.ReturnStmt); ok && len(rs.Results) == 1 {
+				src := r.Src(rs.Results[0])
+				if src != "bytes.NewReader(r.payload)" && src != "http.NoBody" && src != "r.stream" {
+					sharedOnlyForStream = false
+				}
+			}
+			return true
+		})
+		w.Line("/-- `Request.GetPayload` ends in `return bytes.NewReader(r.payload)` and returns nothing but that, `http.NoBody` or the stream -/")
+		w.Line("def getPayloadFresh : Bool := %s", Bool(fresh && sharedOnlyForStream))
+		w.Line("/-- `doHandle` (one call per attempt) calls `spCtx.prepareRequest(…)` itself -/")
+		w.Line("def prepareInsideDoHandle : Bool := %s", Bool(r.CountCalls(dh.Body, "spCtx.prepareRequest") == 1))
+
 		mx, err := r.Func("pkg/object/httpserver/mux.go", "muxInstance", "serveHTTP")
 		if err != nil {
 			return err
